@@ -6,6 +6,7 @@
 package vos
 
 import (
+	"errors"
 	"io/fs"
 	"os"
 
@@ -43,12 +44,23 @@ type Step struct {
 // Hook, when non-nil, is called before every step.
 var Hook func(Step)
 
-func step(op, path, arg string) {
+// Dead is set by a hook that "kills the process": from then on no step has any effect on the file
+// system (a goroutine ended with Goexit still runs its deferred calls — a deferred Flush or Close
+// of a killed process never happens).
+var Dead bool
+
+var ErrDead = errors.New("vos: the process was killed")
+
+func step(op, path, arg string) bool {
+	if Dead {
+		return false
+	}
 	// a file-mutating system call is visible to other threads: scheduling point
 	vrt.Point("fs-"+op, false, nil)
 	if Hook != nil {
 		Hook(Step{op, path, arg})
 	}
+	return !Dead
 }
 
 func flagString(flag int) string {
@@ -78,23 +90,34 @@ type VFile struct {
 }
 
 func (v *VFile) Write(b []byte) (int, error) {
-	step("write", v.path, "")
+	if !step("write", v.path, "") {
+		return 0, ErrDead
+	}
 	return v.f.Write(b)
 }
 func (v *VFile) Close() error {
-	step("close", v.path, "")
+	if !step("close", v.path, "") {
+		_ = v.f.Close() // the kernel closes a dead process's descriptors: no effect on the directory
+		return ErrDead
+	}
 	return v.f.Close()
 }
 func (v *VFile) WriteString(s string) (int, error) {
-	step("write", v.path, "")
+	if !step("write", v.path, "") {
+		return 0, ErrDead
+	}
 	return v.f.WriteString(s)
 }
 func (v *VFile) Sync() error {
-	step("fsync", v.path, "")
+	if !step("fsync", v.path, "") {
+		return ErrDead
+	}
 	return v.f.Sync()
 }
 func (v *VFile) Truncate(size int64) error {
-	step("truncate", v.path, "")
+	if !step("truncate", v.path, "") {
+		return ErrDead
+	}
 	return v.f.Truncate(size)
 }
 func (v *VFile) Seek(offset int64, whence int) (int64, error) { return v.f.Seek(offset, whence) }
@@ -104,7 +127,9 @@ func (v *VFile) Name() string               { return v.f.Name() }
 
 func OpenFile(name string, flag int, perm FileMode) (*VFile, error) {
 	if flag&(os.O_WRONLY|os.O_RDWR|os.O_CREATE|os.O_TRUNC) != 0 {
-		step("open", name, flagString(flag))
+		if !step("open", name, flagString(flag)) {
+			return nil, ErrDead
+		}
 	}
 	f, err := os.OpenFile(name, flag, perm)
 	if err != nil {
@@ -115,14 +140,22 @@ func OpenFile(name string, flag int, perm FileMode) (*VFile, error) {
 
 // WriteFile = open(O_WRONLY|O_CREATE|O_TRUNC), write, close — as os.WriteFile does.
 func WriteFile(name string, data []byte, perm FileMode) error {
-	step("open", name, "CTW")
+	if !step("open", name, "CTW") {
+		return ErrDead
+	}
 	f, err := os.OpenFile(name, os.O_WRONLY|os.O_CREATE|os.O_TRUNC, perm)
 	if err != nil {
 		return err
 	}
-	step("write", name, "")
+	if !step("write", name, "") {
+		_ = f.Close()
+		return ErrDead
+	}
 	_, err = f.Write(data)
-	step("close", name, "")
+	if !step("close", name, "") {
+		_ = f.Close()
+		return ErrDead
+	}
 	if err1 := f.Close(); err1 != nil && err == nil {
 		err = err1
 	}
@@ -130,12 +163,16 @@ func WriteFile(name string, data []byte, perm FileMode) error {
 }
 
 func Rename(oldpath, newpath string) error {
-	step("rename", oldpath, newpath)
+	if !step("rename", oldpath, newpath) {
+		return ErrDead
+	}
 	return os.Rename(oldpath, newpath)
 }
 
 func Remove(name string) error {
-	step("unlink", name, "")
+	if !step("unlink", name, "") {
+		return ErrDead
+	}
 	return os.Remove(name)
 }
 
